@@ -105,20 +105,51 @@ def _bound_of(l):
     return (x, c, top, None) if not neg else (x, 0, c - 1, None)
 
 
+def _lit_summary(t):
+    lits = {t.id: t}
+    bd = {}; xl = {}
+    b = _bound_of(t)
+    if b is not None:
+        x, lo, hi, ex = b
+        bd[x.id] = (lo, hi, frozenset((ex,)) if ex is not None else frozenset())
+        xl[x.id] = (t.id,)
+    return (lits, bd, xl)
+
+
+def _merge_bounds(bd, xid, lo, hi, ex):
+    """merge (lo, hi, ex) into bd[xid]; returns False on contradiction"""
+    o = bd.get(xid)
+    if o is not None:
+        lo = max(lo, o[0]); hi = min(hi, o[1]); ex = ex | o[2]
+    if lo > hi: return False
+    while lo in ex and lo <= hi: lo += 1
+    while hi in ex and hi >= lo: hi -= 1
+    if lo > hi: return False
+    bd[xid] = (lo, hi, ex)
+    return True
+
+
 def _summary(t):
-    """(frozenset of literal ids -> via dict id->term, bounds {xid: [lo, hi, excl frozenset]}) or None"""
+    """conjunction summary (lits {id: literal}, bounds {xid: (lo, hi, excluded)}, xl {xid: ids of the literals bounding x}) or None"""
     sm = t.sm
     if sm is not False: return sm
     if t.op == 'and' and t.w == 0:
-        sm = None      # built by And()
+        # chain node created by _chain(): combine the children lazily
+        sa = _summary(t.args[0]); sb = _summary(t.args[1])
+        sm = None
+        if sa is not None and sb is not None and len(sa[0]) + len(sb[0]) <= SM_LIMIT:
+            lits = dict(sa[0]); lits.update(sb[0])
+            bd = dict(sa[1]); ok = True
+            for xid, (lo, hi, ex) in sb[1].items():
+                if not _merge_bounds(bd, xid, lo, hi, ex): ok = False; break
+            if ok:
+                xl = dict(sa[2])
+                for xid, ids in sb[2].items():
+                    o = xl.get(xid)
+                    xl[xid] = ids if o is None else tuple(sorted(set(o) | set(ids)))
+                sm = (lits, bd, xl)
     else:
-        lits = {t.id: t}
-        bd = {}
-        b = _bound_of(t)
-        if b is not None:
-            x, lo, hi, ex = b
-            bd[x.id] = (lo, hi, frozenset((ex,)) if ex is not None else frozenset())
-        sm = (lits, bd)
+        sm = _lit_summary(t)
     t.sm = sm
     return sm
 
@@ -127,6 +158,15 @@ def _neg_in(l, lits):
     if l.op == 'not': return l.args[0].id in lits
     n = _table.get(('not', 0, (l,)))
     return n is not None and n.id in lits
+
+
+def _chain(ls, sm=None):
+    """left-nested conjunction of the literals ls (sorted by id), without simplification"""
+    r = ls[0]
+    for l in ls[1:]:
+        r = _mk('and', 0, (r, l) if r.id < l.id else (l, r))
+    if sm is not None and r.op == 'and' and r.sm is False: r.sm = sm
+    return r
 
 
 def And(a, b):
@@ -142,35 +182,76 @@ def And(a, b):
     r = _table.get(('and', 0, (a, b)))
     if r is not None: return r
     sa = _summary(a); sb = _summary(b)
-    sm = None
-    if sa is not None and sb is not None:
-        la, ba = sa; lb, bb = sb
-        if len(la) < len(lb):
-            la, lb = lb, la; ba, bb = bb, ba; big, small = b, a
-        else:
-            big, small = a, b
-        new = [l for i, l in lb.items() if i not in la]
-        if not new: return big
-        for l in new:
-            if _neg_in(l, la): return False
-        if len(la) + len(new) <= SM_LIMIT:
-            bd = ba
-            if bb:
-                bd = dict(ba)
-                for xid, (lo, hi, ex) in bb.items():
-                    o = bd.get(xid)
-                    if o is not None:
-                        lo = max(lo, o[0]); hi = min(hi, o[1]); ex = ex | o[2]
-                        if lo > hi: return False
-                        while lo in ex and lo <= hi: lo += 1
-                        while hi in ex and hi >= lo: hi -= 1
-                        if lo > hi: return False
-                    bd[xid] = (lo, hi, ex)
-            lits = dict(la)
-            for l in new: lits[l.id] = l
-            sm = (lits, bd)
-    r = _mk('and', 0, (a, b))
-    r.sm = sm
+    if sa is None or sb is None:
+        r = _mk('and', 0, (a, b)); r.sm = None
+        return r
+    la, ba, xa = sa; lb, bb, xb = sb
+    if len(la) < len(lb):
+        la, lb = lb, la; ba, bb = bb, ba; xa, xb = xb, xa; big, small = b, a
+    else:
+        big, small = a, b
+    new = [l for i, l in lb.items() if i not in la]
+    if not new: return big
+    for l in new:
+        if _neg_in(l, la): return False
+    bd = ba; xl = xa; keep = []; drop = None
+    for l in new:
+        bnd = _bound_of(l)
+        if bnd is None:
+            keep.append(l); continue
+        x, lo, hi, ex = bnd
+        xid = x.id
+        o = bd.get(xid)
+        if o is not None:
+            clo, chi, cex = o
+            if ex is None:
+                if clo >= lo and chi <= hi: continue            # implied by what is already there
+                if chi < lo or clo > hi: return False
+            else:
+                if ex in cex or ex < clo or ex > chi: continue
+                if clo == chi == ex: return False
+        if bd is ba: bd = dict(ba); xl = dict(xa)
+        if not _merge_bounds(bd, xid, lo, hi, frozenset((ex,)) if ex is not None else frozenset()): return False
+        keep.append(l)
+        if ex is None:
+            # literals of the big conjunction that the new range literal makes redundant
+            for lid in xa.get(xid, ()):
+                if drop is not None and lid in drop: continue
+                ob = _bound_of(la[lid])
+                if (ob[3] is None and lo >= ob[1] and hi <= ob[2]) or (ob[3] is not None and (ob[3] < lo or ob[3] > hi)):
+                    if drop is None: drop = set()
+                    drop.add(lid)
+        cur = xl.get(xid, ())
+        if drop: cur = tuple(i for i in cur if i not in drop)
+        xl[xid] = cur + (l.id,)
+    if not keep: return big
+    n = len(la) + len(keep) - (len(drop) if drop else 0)
+    if drop is None and len(keep) == len(lb):
+        r = _mk('and', 0, (a, b))
+        if r.sm is False:
+            if n <= SM_LIMIT:
+                lits = dict(la)
+                for l in keep: lits[l.id] = l
+                r.sm = (lits, bd, xl)
+            else: r.sm = None
+        return r
+    if drop is None:
+        lits = dict(la)
+        for l in keep: lits[l.id] = l
+        r = big
+        for l in keep: r = _mk('and', 0, (r, l) if r.id < l.id else (l, r))
+    else:
+        lits = {i: l for i, l in la.items() if i not in drop}
+        for l in keep: lits[l.id] = l
+        r = _chain([lits[i] for i in sorted(lits)])
+    if r.op == 'and' and r.sm is False:
+        r.sm = (lits, bd, xl) if n <= SM_LIMIT else None
+    return r
+
+
+def _conj_ids(lits, ids):
+    r = True
+    for i in sorted(ids): r = And(r, lits[i])
     return r
 
 
@@ -192,6 +273,32 @@ def Or(a, b):
     if b.op == 'and' and (b.args[0] is a or b.args[1] is a): return a
     if a.op == 'and' and (a.args[0] is b or a.args[1] is b): return b
     if a.id > b.id: a, b = b, a
+    r = _table.get(('or', 0, (a, b)))
+    if r is not None: return r
+    if a.op == 'and' or b.op == 'and':
+        # factor the common literals of two conjunctions: (C and x) or (C and y) = C and (x or y)
+        sa = _summary(a); sb = _summary(b)
+        if sa is not None and sb is not None:
+            la = sa[0]; lb = sb[0]
+            ra = [i for i in la if i not in lb]
+            if not ra: return a                      # a's literals are a subset of b's: a is the weaker one
+            rb = [i for i in lb if i not in la]
+            if not rb: return b
+            if len(ra) < len(la):
+                x = Or(_conj_ids(la, ra), _conj_ids(lb, rb))
+                c = _conj_ids(la, [i for i in la if i in lb])
+                r = And(c, x)
+                if r is not True and r is not False: _table[('or', 0, (a, b))] = r
+                return r
+    else:
+        ba = _bound_of(a)
+        if ba is not None and ba[3] is None:
+            bb = _bound_of(b)
+            if bb is not None and bb[3] is None and bb[0] is ba[0]:
+                if ba[1] <= bb[1] and ba[2] >= bb[2]: return a      # b's range inside a's
+                if bb[1] <= ba[1] and bb[2] >= ba[2]: return b
+                if ba[1] == 0 and bb[2] == (1 << (a.args[0] if a.op == 'not' else a).ow) - 1 and bb[1] <= ba[2] + 1: return True
+                if bb[1] == 0 and ba[2] == (1 << (a.args[0] if a.op == 'not' else a).ow) - 1 and ba[1] <= bb[2] + 1: return True
     return _mk('or', 0, (a, b))
 
 
@@ -208,7 +315,7 @@ def implied(c, ctx, depth=0, memo=None):
 
 
 def _implied(c, ctx, depth, memo):
-    lits, bd = ctx
+    lits, bd = ctx[0], ctx[1]
     if c.id in lits: return True
     if c.op == 'not':
         r = implied(c.args[0], ctx, depth + 1, memo)
